@@ -15,6 +15,9 @@ sys.path.insert(0, os.environ.get("PYVC_REPO", "/repo"))
 
 def main():
     mod = importlib.import_module("contracts.bounded_api")
+    if sys.argv[1] == "--single":
+        print("\n" + json.dumps({"digest": mod.run_single(json.loads(sys.argv[2]))}))
+        return
     if sys.argv[1] == "--replay":
         name, case = sys.argv[2], json.loads(sys.argv[3])
         fn = getattr(mod, "replay_" + name, None)
